@@ -26,6 +26,7 @@ var kinds = []struct {
 	{"3mf", run3MF},
 	{"write_fault", runWriteFaults},
 	{"encode_session", runEncodeSession},
+	{"ply_meshstream", runPLYMeshStream},
 	{"concurrent_export", nil}, // runs under the goroutine scheduler: see runCase
 }
 
